@@ -316,6 +316,9 @@ func snapshotShape(m *msggen.Message) string {
 	if m.Method == "CONNECT" {
 		return "connect-request"
 	}
+	if m.Target == "*" {
+		return "options-asterisk"
+	}
 	if m.TrailerPresent {
 		return m.Framing + "-with-trailers"
 	}
@@ -824,7 +827,7 @@ func takeSnapshot(c Case, m *msggen.Message, sub *twin) (mv *messageview.Message
 	}
 	// no HTTP/1.x serialisation of a request of unknown length exists
 	// ... nor of a message whose length field says nothing about its body
-	return mv, captured, !c.Unknown && !builtApplies(c.Built, m), nil
+	return mv, captured, !builtApplies(c.Built, m), nil
 }
 
 // verifySnapshot re-parses Reader() and compares it with the description.
@@ -842,7 +845,7 @@ func verifySnapshot(c Case, m *msggen.Message, sub *twin, mv *messageview.Messag
 	if tb == nil {
 		tb = []byte{}
 	}
-	return verifyRaw("C15/snapshot/", m, sub, raw, tb, captured)
+	return verifyRaw("C15/snapshot/", m, sub, raw, tb, captured, c.Unknown)
 }
 
 // textSnapshot cuts the message out of a record of the text logger:
@@ -868,20 +871,67 @@ func textSnapshot(record string) ([]byte, bool) {
 // snapshot of the message; it must be that message. Messages with trailers are
 // left to the snapshot clause (open finding: no blank line after trailers).
 func verifyTextRecord(c Case, m *msggen.Message, sub *twin, record string) kit.Verdict {
-	if c.Decode || m.TrailerPresent || c.Unknown || builtApplies(c.Built, m) {
+	if c.Decode || m.TrailerPresent || builtApplies(c.Built, m) {
 		return nil
 	}
 	raw, ok := textSnapshot(record)
 	if !ok {
 		return kit.Failf("C15/text-log/"+snapshotShape(m)+"/record-malformed", "the text record does not have the documented layout: %.200q", record)
 	}
-	return verifyRaw("C15/text-log/", m, sub, raw, nil, !c.HeadersOnly)
+	return verifyRaw("C15/text-log/", m, sub, raw, nil, !c.HeadersOnly, c.Unknown)
 }
 
 // verifyRaw re-parses an emitted snapshot and compares it with the
 // description. trailerSection is the raw trailer block when known.
-func verifyRaw(clause string, m *msggen.Message, sub *twin, raw, trailerSection []byte, captured bool) (v kit.Verdict) {
+func verifyRaw(clause string, m *msggen.Message, sub *twin, raw, trailerSection []byte, captured, unknown bool) (v kit.Verdict) {
 	shape := snapshotShape(m)
+	if unknown {
+		shape = "request-of-unknown-length"
+	}
+	// fields net/http moves out of the header map are looked for in the bytes
+	var lines []string
+	if i := bytes.Index(raw, []byte("\r\n\r\n")); i >= 0 {
+		lines = strings.Split(string(raw[:i]), "\r\n")[1:]
+	}
+	rawValue := func(name string) (string, bool) {
+		for _, l := range lines {
+			if len(l) > len(name)+1 && strings.EqualFold(l[:len(name)+1], name+":") {
+				return strings.TrimSpace(l[len(name)+1:]), true
+			}
+		}
+		return "", false
+	}
+	descValue := func(name string) (string, bool) {
+		for _, h := range m.Headers {
+			if strings.EqualFold(h.Name, name) {
+				return h.Value, true
+			}
+		}
+		return "", false
+	}
+	// (a response delimited by the end of the connection has Close set with and
+	// without the header: nothing can be asked of its snapshot)
+	if _, want := descValue("Connection"); want && m.Framing != "close" {
+		if got, ok := rawValue("Connection"); !ok || !strings.EqualFold(got, "close") {
+			v.Addf(clause+"connection-close/header-dropped", "the message carries 'Connection: close' (net/http keeps it in the Close field and forwards it), the snapshot has no such line: %s", head(raw))
+		}
+	}
+	if want, ok := descValue("Trailer"); ok {
+		if _, has := rawValue("Trailer"); !has {
+			v.Addf(clause+"trailers-announced/announcement-dropped", "the message announces its trailers ('Trailer: %s', forwarded by net/http), the snapshot has no Trailer line", want)
+		}
+	}
+	if !unknown {
+		want, announced := descValue("Content-Length")
+		got, has := rawValue("Content-Length")
+		switch {
+		case announced && has && got != want && !m.BodyOnWire:
+			v.Addf(clause+"bodyless-response/content-length-differs", "the message says 'Content-Length: %s', the snapshot 'Content-Length: %s'", want, got)
+		case !announced && has && m.Spec.Response && (m.Status == 204 || m.Status == 304 || m.Status/100 == 1):
+			// (a bodyless request with an added 'Content-Length: 0' means the same as without)
+			v.Addf(clause+"bodyless-response/content-length-invented", "a %d response without Content-Length gets 'Content-Length: %s' in the snapshot", m.Status, got)
+		}
+	}
 	br := bufio.NewReader(bytes.NewReader(raw))
 	var (
 		hdr      http.Header
@@ -903,11 +953,15 @@ func verifyRaw(clause string, m *msggen.Message, sub *twin, raw, trailerSection 
 		startGot = fmt.Sprintf("%s %s %s host=%s", req.Method, req.RequestURI, req.Proto, req.Host)
 		// the snapshot writes the URL of the message it was given (made absolute by the proxy)
 		target := m.URL
-		if m.Method == "CONNECT" {
-			target = m.Target // authority form
+		if m.Method == "CONNECT" || m.Target == "*" {
+			target = m.Target // authority form, asterisk form
 		}
 		startExp = fmt.Sprintf("%s %s %s host=%s", m.Method, target, m.Proto, m.Host)
 		wantCL, wantTE = sub.req.ContentLength, sub.req.TransferEncoding
+		if unknown {
+			// forwarded chunked by net/http: the only HTTP/1.1 serialisation there is
+			wantCL, wantTE = -1, []string{"chunked"}
+		}
 	} else {
 		res, err := http.ReadResponse(br, sub.req)
 		if err != nil {
@@ -936,13 +990,16 @@ func verifyRaw(clause string, m *msggen.Message, sub *twin, raw, trailerSection 
 	if startGot != startExp {
 		v.Addf(clause+shape+"/start-line-differs", "snapshot start line %q, message %q", startGot, startExp)
 	}
-	gotH := multiset(withoutKeys(hdr, "Content-Length"))
-	wantH := descHeaders(m.Headers, "Content-Length", "Transfer-Encoding", "Trailer", "Host")
+	gotH := multiset(withoutKeys(hdr, "Content-Length", "Connection"))
+	wantH := descHeaders(m.Headers, "Content-Length", "Transfer-Encoding", "Trailer", "Host", "Connection")
 	if strings.Join(gotH, "\n") != strings.Join(wantH, "\n") {
 		v.Addf(clause+shape+"/headers-differ", "snapshot headers %q, message headers %q", gotH, wantH)
 	}
 	if cl != wantCL || strings.Join(te, ",") != strings.Join(wantTE, ",") {
 		v.Addf(clause+shape+"/framing-differs", "snapshot re-parses with length %d transfer-encoding %v, the message has %d %v", cl, te, wantCL, wantTE)
+		if unknown {
+			return v // without a framing the body bytes of the snapshot are not a body
+		}
 	}
 	if !captured {
 		return v
@@ -990,7 +1047,7 @@ func maxBody() int {
 
 func gen(t *rapid.T) Case {
 	c := Case{Logger: rapid.SampledFrom([]string{"har", "marbl", "text", "snapshot", "stack"}).Draw(t, "logger")}
-	o := msggen.Options{MaxBody: maxBody(), Corrupt: true, Unannounced: true, BadForms: true, RawQuery: true, Reasons: true, MoreCodings: true, Connect: true}
+	o := msggen.Options{MaxBody: maxBody(), Corrupt: true, Unannounced: true, BadForms: true, RawQuery: true, Reasons: true, MoreCodings: true, Connect: true, ConnClose: true, Asterisk: true, Meta304: true}
 	if rapid.Bool().Draw(t, "response") {
 		c.Msg = msggen.DrawResponse(t, o, rapid.SampledFrom([]string{"GET", "GET", "POST", "HEAD"}).Draw(t, "req_method"))
 	} else {
